@@ -244,6 +244,10 @@ def classify(kind, detail, src, opts):
         mm = re.match(r"source (\d+) output (\d+)", detail)
         if mm and len(lst) == int(mm.group(1)) and len(dict.fromkeys(lst)) == int(mm.group(2)):
             return "interface-count@duplicate-subgraph-io-entries-removed"
+    if kind == "options" and builtin == 67:
+        mm = re.search(r"type 49 \[(.*)\] vs type 49 \[(.*)\]", detail)
+        if mm and re.sub(r",? ?\(3, [0-9a-f]+\)", "", mm.group(1)) == mm.group(2):
+            return "options@transpose-conv-fused-activation-not-serialised"
     if kind == "options" and builtin in POOLS:
         # source pooling operators whose kernel == stride == feature map (fixup_pool_strides runs before placement)
         for op in sg["operators"]:
@@ -321,7 +325,7 @@ def main():
                      {"request": r, "python": e, "model": a}, found_input=False)
 
     # ---- pipeline artefacts ----------------------------------------------------------------------
-    n = 1400 if ck.thorough else 150
+    n = 7000 if ck.thorough else 480
     jobs = [(ck.seed, i, PROFILES[i % len(PROFILES)]) for i in range(n)]
     outs = run_jobs(jobs)
     lines, owners = [], []
